@@ -191,7 +191,7 @@ public:
   /// \brief Copy assignment operator. Assigns this direction by copying another one.
   template <typename OtherNumericType>
   constexpr Direction<NumericType>& operator=(const Direction<OtherNumericType>& other) {
-    this->value = static_cast<Vector<NumericType>>(other.Value());
+    Set(static_cast<Vector<NumericType>>(other.Value()));
     return *this;
   }
 
